@@ -10,7 +10,7 @@ ENUM_MAX_BIG = [2 ** 31, 2 ** 32, 2 ** 32 + 1, 2 ** 49 - 1, 2 ** 49, 2 ** 49 + 1
 
 
 WIDE_CHARS = ["\u00b0", "\u00e9", "\u00fc", "\u03a9", "\u20ac", "\u4e2d", "\U0001f600", "\u0080", "\u07ff", "\u0800", "\uffff",
-              "\U00010000", "\U0010ffff", "\u00ff"]
+              "\U00010000", "\U0010ffff", "\u00ff", "\ufeff", "\u2028", "\ufffd"]
 
 
 def text_bytes(s):
@@ -295,6 +295,9 @@ def gen_value(rng, d: Desc, t, long_ok=True):
         # texts: mostly 7-bit, now and then characters of two, three and four UTF-8 bytes (the wire carries the UTF-8 bytes,
         # the count in front of them is the number of BYTES)
         txt = "".join(chr(rng.randint(0, 127)) if rng.random() < 0.85 else rng.choice(WIDE_CHARS) for _ in range(n))
+        if n and rng.random() < 0.08:
+            # characters that codecs like to treat specially at the START of a text: a byte-order mark, a NUL, a replacement mark
+            txt = rng.choice(["\ufeff", "\ufeff\ufeff", "\x00", "\ufffd"]) + txt[1:]
         return txt, {"s": text_bytes(txt)}
     if k == "enum":
         es = d.enum(t[1])
